@@ -160,6 +160,8 @@ class Crate:
         self.cwd = 'w'
         self.reg = None                    # option_env!("CARGO_REGISTRIES_MIRROR_TOKEN"): a CARGO_* name the key's CARGO_ loop skips
         self.have_cc = HAVE_CC
+        self.keep = set()                  # files whose mtime must be put back after the next write (same size, SAME mtime)
+        self.remap = False                 # --remap-path-prefix=<parent of the working directory>=/x
         self.natives = ['own', 'fallback'] # both hold libfoo.a; command-line order is not the sorted order
         self.foo = {'own': 1, 'fallback': 100}
         self.edits = 0
@@ -177,19 +179,19 @@ class Crate:
         if self.have_cc:
             lib.append('extern "C" { fn foo_version() -> i32; }\npub fn foov() -> i32 { unsafe { foo_version() } }\n')
         self.files['src/lib.rs'] = ''.join(lib)
-        self.files['src/alpha.rs'] = 'pub fn a() -> u32 { %d }\n' % rng.below(1000)
+        self.files['src/alpha.rs'] = 'pub const TOK: &str = "t0000";\npub fn a() -> u32 { %d }\n' % rng.below(1000)
         self.files['src/beta.rs'] = 'pub mod inner;\npub fn b() -> u32 { inner::deep() }\n'
         self.files['src/beta/inner.rs'] = 'pub fn deep() -> u32 { %d }\n' % rng.below(1000)
         self.files['src/sp ace.rs'] = 'pub fn s() -> u32 { 5 }\n'
-        self.files['data/d.txt'] = 'included text %d\n' % rng.below(1000)
+        self.files['data/d.txt'] = 'tok t0000\nincluded text %d\n' % rng.below(1000)
         self.initial = None
 
     def snapshot(self):
         return (dict(self.files), dict(self.env), self.vv, list(self.cfgs), list(self.lpaths), self.dep_version,
-                list(self.extra), self.out_dir, self.cwd, self.reg, list(self.natives), dict(self.foo))
+                list(self.extra), self.out_dir, self.cwd, self.reg, list(self.natives), dict(self.foo), self.remap)
 
     def restore(self, snap):
-        (f, e, self.vv, c, l, self.dep_version, x, self.out_dir, self.cwd, self.reg, n, foo) = snap
+        (f, e, self.vv, c, l, self.dep_version, x, self.out_dir, self.cwd, self.reg, n, foo, self.remap) = snap
         self.files, self.env, self.cfgs, self.lpaths, self.extra = dict(f), dict(e), list(c), list(l), list(x)
         self.natives, self.foo = list(n), dict(foo)
 
@@ -205,6 +207,8 @@ class Crate:
         for l in self.lpaths:
             a += ['-L', l]
         a += ['--extern', 'dep=deps/libdep.rlib']
+        if self.remap:
+            a += ['--remap-path-prefix=@PARENT@=/x']     # @PARENT@ = the directory above the working directory
         return a + self.extra
 
     def environment(self, base):
@@ -225,7 +229,7 @@ class Crate:
         return (tuple(sorted(self.files.items())), tuple(sorted((k, v) for k, v in self.env.items() if k.startswith('CARGO_'))),
                 ('set', self.vv) if self.vv is not None else ('unset',), tuple(sorted(self.cfgs)), tuple(sorted(self.lpaths)),
                 self.dep_version, tuple(self.extra), self.emit, self.crate_type, self.cwd,
-                ('set', self.reg) if self.reg is not None else ('unset',),
+                ('set', self.reg) if self.reg is not None else ('unset',), self.remap,
                 # the static library: the search directories in order, and the archive rustc takes (the first one's)
                 (tuple(self.natives), self.foo[self.natives[0]]) if self.have_cc else None,
                 self.out_dir if with_out_dir else None)
@@ -280,6 +284,48 @@ STEPS = {
     'static_second_edit': lambda c: bump_foo(c, 1),
     'static_swap': lambda c: setattr(c, 'natives', c.natives[::-1]),
 }
+
+
+def retoken(c, path, keep):
+    """replace the fixed-width token of a file: same size, other content; keep = put the old mtime back"""
+    import re as _re
+    c.edits += 1
+    c.files[path] = _re.sub(r't\d{4}', 't%04d' % (c.edits % 10000), c.files[path], count=1)
+    if keep:
+        c.keep.add(path)
+
+
+def swap_files(c, a, b):
+    c.files[a], c.files[b] = c.files[b], c.files[a]
+
+
+def same_size_dep(c, keep):
+    c.dep_version = 2 if c.dep_version == 1 else 1
+    if keep:
+        c.keep.add('deps/libdep.rlib')
+
+
+def same_size_foo(c, keep):
+    c.edits += 1
+    c.foo[c.natives[0]] = 2000 + c.edits % 1000          # four digits: object code of the same size
+    if keep:
+        c.keep.add(c.natives[0] + '/libfoo.a')
+
+
+STEPS.update({
+    # same size, new mtime / same size, SAME mtime — for every file-input class, within one server lifetime
+    'ss_src': lambda c: retoken(c, 'src/alpha.rs', False), 'sm_src': lambda c: retoken(c, 'src/alpha.rs', True),
+    'ss_inc': lambda c: retoken(c, 'data/d.txt', False), 'sm_inc': lambda c: retoken(c, 'data/d.txt', True),
+    'ss_ext': lambda c: same_size_dep(c, False), 'sm_ext': lambda c: same_size_dep(c, True),
+    'ss_static': lambda c: same_size_foo(c, False), 'sm_static': lambda c: same_size_foo(c, True),
+    # contents exchanged between two files of one group
+    'swap_src': lambda c: swap_files(c, 'src/alpha.rs', 'src/sp ace.rs'),
+    # the working directory under a remapped common parent
+    'remap_on': lambda c: setattr(c, 'remap', True), 'remap_off': lambda c: setattr(c, 'remap', False),
+})
+FIXED_HISTORIES.append(['sm_src', 'ss_src', 'sm_inc', 'ss_inc', 'sm_ext', 'ss_ext', 'sm_ext', 'sm_static', 'ss_static', 'sm_static', 'same'])
+FIXED_HISTORIES.append(['swap_src', 'swap_src', 'swap_src', 'remap_on', 'cwd_swap', 'cwd_swap', 'remap_off', 'cwd_swap', 'remap_on', 'same'])
+RANDOM_POOL.extend(['ss_src', 'sm_src', 'ss_inc', 'sm_inc', 'ss_ext', 'sm_ext', 'ss_static', 'sm_static', 'swap_src', 'remap_on', 'remap_off'])
 
 
 def bump_foo(c, i):
